@@ -45,6 +45,10 @@ class Profile:
     def extra(self, flow: "ExcFlow", cfg: CFG, node: Node) -> set[str]:
         return set()
 
+    def suppress_raise(self, flow: "ExcFlow", cfg: CFG, node: Node) -> bool:
+        """An explicit raise proven unreachable by a rule-checked fact (never assumed)."""
+        return False
+
 
 class ExcFlow:
     def __init__(self, prog: Program, resolver: Resolver | None = None, profile: Profile | None = None):
@@ -227,7 +231,7 @@ class ExcFlow:
         f = cfg.func
         p = self.prog
         out: set[str] = set()
-        if node.kind == "raise":
+        if node.kind == "raise" and not self.profile.suppress_raise(self, cfg, node):
             out |= self._explicit_raise(cfg, node, handler_stack)
         if node.kind == "with_enter" and isinstance(node.ast, ast.AsyncWith):
             # entering an asynchronous context manager suspends (locks, semaphores)
